@@ -7,7 +7,7 @@ CONSTANTS
   SessIdx <- CrossIdx
   MaxForge = 2
   MaxSend = 2
-  Window = 2
+  Window = 1000
   Weak = {}
   MaxSteps = 22
 CHECK_DEADLOCK FALSE
